@@ -16,6 +16,7 @@ DEFAULT_OPTS = {
     'show': (None,),       # values for show_or_muck_hole_cards
     'fold': True,
     'fold_unfaced': False,  # cash games: fold with nothing to call (warned)
+    'probe': False,        # out-of-domain arguments become events if (and only if) the query accepts them
 }
 
 
@@ -117,6 +118,23 @@ def legal_menu(st, o=DEFAULT_OPTS):
                 xs = [lo]
             for x in xs:
                 add((('complete_bet_or_raise_to', x), 1))
+    if o.get('probe'):
+        # arguments no rule allows: they are part of the explored behaviour exactly when the implementation says they are available
+        for c in (0, -1):
+            if _yes(st.can_select_runout_count, c):
+                add((('select_runout_count', c), 1))
+        if st.actor_indices:
+            lo = st.min_completion_betting_or_raising_to_amount
+            hi = st.max_completion_betting_or_raising_to_amount
+            if lo is not None and hi is not None:
+                for x in (lo - 1, hi + 1):
+                    if _yes(st.can_complete_bet_or_raise_to, x):
+                        add((('complete_bet_or_raise_to', x), 1))
+        for k in (0, -1):
+            if _yes(st.can_deal_board, k):
+                add((('deal_board', k), 1))
+            if _yes(st.can_deal_hole, k):
+                add((('deal_hole', k), 1))
     if st.can_select_runout_count():
         for c in o['runouts']:
             add((('select_runout_count', c), 0 if c is None else 1))
@@ -127,6 +145,15 @@ def legal_menu(st, o=DEFAULT_OPTS):
                         add((('select_runout_count', c, i), 1))
     if st.can_show_or_muck_hole_cards():
         for v in o['show']:
+            if v == 'partial':
+                # table only the first hole card, keep the rest face down (cash games)
+                i = st.showdown_index
+                hc = st.hole_cards[i] if i is not None else ()
+                if len(hc) >= 2 and all(hc):
+                    t = card_text(hc[:1])
+                    if st.can_show_or_muck_hole_cards(t):
+                        add((('show_or_muck_hole_cards', t), 1))
+                continue
             add((('show_or_muck_hole_cards', v), 0 if v is None else 1))
     elif mix and st.showdown_indices and st.street is not None:
         i = st.showdown_indices[0]
@@ -152,6 +179,13 @@ def legal_menu(st, o=DEFAULT_OPTS):
                 if st.can_pull_chips(i):
                     add((('pull_chips', i), 1))
     return ev
+
+
+def _yes(q, *a):
+    try:
+        return q(*a) is True
+    except Exception:
+        return False
 
 
 def range_chips(lo, hi):
